@@ -152,7 +152,11 @@ fuzz_target!(|data: &[u8]| {
                 let live: Vec<(u64, u64)> = m.cur.log.values().map(|v| v.0).collect();
                 let beyond = u.ratio(1u8, 5u8).unwrap_or(false);
                 let upto = if beyond || live.is_empty() {
+                    // beyond the last entry, or exactly at its index with a newer term
+                    // (a snapshot of a newer leader that ends where the local log ends)
+                    let same_index = u.ratio(1u8, 3u8).unwrap_or(false);
                     match m.st().last {
+                        Some((t, i)) if same_index => (t + 1, i),
                         Some((t, i)) => (t, i + 1),
                         None => (1, 1),
                     }
